@@ -33,6 +33,114 @@ pub struct Failure {
 enum Exec {
     No,
     Yes,
+    /// Execute, and probe in a child process even if the run has already
+    /// decided to trust or avoid the request's class (shrinking, replay).
+    YesForceProbe,
+}
+
+// Requests that are plannable but contain a dependency cycle through an
+// available (supplied / constant / captured) value are first planned in a
+// forked child with a time limit, per allow_missing_inputs setting:
+// 0 = probing (fork), 1 = trusted after PROBE_CLEAN clean returns (in-process),
+// 2 = a hang was confirmed; the class is skipped (and counted) from then on.
+static DANGER_MODE: [AtomicU64; 2] = [AtomicU64::new(0), AtomicU64::new(0)];
+static DANGER_CLEAN: [AtomicU64; 2] = [AtomicU64::new(0), AtomicU64::new(0)];
+const PROBE_CLEAN: u64 = 24;
+
+/// Plan in a forked child. Ok(true) = returned within `limit`; Ok(false) =
+/// still running after `limit` (the child is killed).
+fn plan_in_child(spec: &GSpec, req: &Request, limit: Duration) -> Result<bool, String> {
+    unsafe {
+        let pid = libc::fork();
+        if pid < 0 {
+            return Err("fork failed".to_string());
+        }
+        if pid == 0 {
+            // Child: only this thread exists.
+            let b = build(spec);
+            let ins: Vec<NodeId> = req.inputs.iter().map(|i| b.node_id(i)).collect();
+            let outs: Vec<NodeId> = req.outputs.iter().map(|i| b.node_id(i)).collect();
+            let _ = catch(|| b.plan(&ins, &outs, req).map(|p| p.len()));
+            libc::_exit(0);
+        }
+        let t0 = Instant::now();
+        loop {
+            let mut status = 0;
+            let r = libc::waitpid(pid, &mut status, libc::WNOHANG);
+            if r == pid {
+                return if libc::WIFEXITED(status) { Ok(true) } else { Err(format!("probe child died with status {}", status)) };
+            }
+            if r < 0 {
+                return Err("waitpid failed".to_string());
+            }
+            if t0.elapsed() > limit {
+                libc::kill(pid, libc::SIGKILL);
+                libc::waitpid(pid, &mut status, 0);
+                return Ok(false);
+            }
+            std::thread::sleep(Duration::from_micros(300));
+        }
+    }
+}
+
+enum Probe {
+    Proceed,
+    Skip,
+    Hang,
+}
+
+/// Number of threads currently waiting for a probe child (the watchdog must
+/// not mistake that wait for a stuck planner).
+static PROBING: AtomicU64 = AtomicU64::new(0);
+
+fn probe_danger(spec: &GSpec, req: &Request, force: bool, st: &mut Stats) -> Probe {
+    PROBING.fetch_add(1, SeqCst);
+    let r = probe_danger_inner(spec, req, force, st);
+    PROBING.fetch_sub(1, SeqCst);
+    r
+}
+
+fn probe_danger_inner(spec: &GSpec, req: &Request, force: bool, st: &mut Stats) -> Probe {
+    let class = req.allow_missing as usize;
+    let mode = DANGER_MODE[class].load(SeqCst);
+    if !force {
+        if mode == 1 {
+            return Probe::Proceed;
+        }
+        if mode == 2 {
+            st.count("skipped_cycle_through_available_after_confirmed_hang");
+            return Probe::Skip;
+        }
+    }
+    st.count("probed_in_child_process");
+    // Normal planning of these graphs takes microseconds.
+    let (first, confirm) = if force { (120, 500) } else { (700, 3000) };
+    match plan_in_child(spec, req, Duration::from_millis(first)) {
+        Ok(true) => {
+            if DANGER_CLEAN[class].fetch_add(1, SeqCst) + 1 >= PROBE_CLEAN && mode == 0 {
+                DANGER_MODE[class].store(1, SeqCst);
+            }
+            Probe::Proceed
+        }
+        Ok(false) => match plan_in_child(spec, req, Duration::from_millis(confirm)) {
+            Ok(false) => {
+                DANGER_MODE[class].store(2, SeqCst);
+                Probe::Hang
+            }
+            Ok(true) => {
+                st.count("hang_suspicion_not_confirmed");
+                Probe::Proceed
+            }
+            Err(_) => {
+                st.count("probe_child_failed");
+                Probe::Skip
+            }
+        },
+        Err(_) => {
+            st.count("probe_child_failed");
+            Probe::Skip
+        }
+    }
 }
 
 #[derive(Default)]
@@ -45,10 +153,17 @@ struct Stats {
     failures: Vec<(GSpec, Request, Failure)>,
     failure_count: u64,
     other_panics: Vec<String>,
+    partial_run_panics: Vec<String>,
     max_plan_len: u64,
 }
 
 impl Stats {
+    /// Keep at most 6 failing cases per kind.
+    fn keep_failure(&mut self, f: (GSpec, Request, Failure)) {
+        if self.failures.iter().filter(|x| x.2.kind == f.2.kind).count() < 6 {
+            self.failures.push(f);
+        }
+    }
     fn count(&mut self, k: &'static str) {
         *self.counters.entry(k).or_insert(0) += 1;
     }
@@ -66,8 +181,11 @@ impl Stats {
             }
         }
         for f in o.failures {
-            if self.failures.len() < 64 {
-                self.failures.push(f);
+            self.keep_failure(f);
+        }
+        for p in o.partial_run_panics {
+            if self.partial_run_panics.len() < 6 {
+                self.partial_run_panics.push(p);
             }
         }
         self.failure_count += o.failure_count;
@@ -105,6 +223,16 @@ fn is_plan_panic(msg: &str) -> bool {
 fn check_request(b: &Built, orc: &mut Oracle, spec: &GSpec, req: &Request, ins: &[NodeId], outs: &[NodeId], exec: Exec, st: &mut Stats, id_hash: u64) -> Option<Failure> {
     st.evals += 1;
     let expect = orc.classify(req);
+    if expect == Expect::Ok && orc.cycle_through_available() {
+        st.count("requests_with_cycle_through_available_value");
+        match probe_danger(spec, req, exec == Exec::YesForceProbe, st) {
+            Probe::Proceed => {}
+            Probe::Skip => return None,
+            Probe::Hang => {
+                return Some(Failure { kind: "hang", detail: "execution_plan did not return: run in a child process it had to be killed after the time limit, twice (normal cost: microseconds)".to_string() });
+            }
+        }
+    }
     let result = match catch(|| b.plan(ins, outs, req)) {
         Ok(r) => r,
         Err(msg) => {
@@ -150,7 +278,7 @@ fn check_request(b: &Built, orc: &mut Oracle, spec: &GSpec, req: &Request, ins: 
             if st.samples.len() < 2 && plan.len() >= 3 {
                 st.samples.push(json!({"graph": canonical(spec, req), "plan": plan_idx.iter().map(|p| format!("op{}", p.unwrap())).collect::<Vec<_>>()}));
             }
-            if exec == Exec::Yes {
+            if exec != Exec::No {
                 return execute(b, spec, req, ins, outs, &plan_idx, st, id_hash);
             }
             None
@@ -186,18 +314,32 @@ fn execute(b: &Built, spec: &GSpec, req: &Request, ins: &[NodeId], outs: &[NodeI
                 Ok(Err(_)) => st.count("partial_run_err"),
                 Err(msg) => {
                     st.count("partial_run_panicked");
-                    if st.other_panics.len() < 4 {
-                        st.other_panics.push(format!("partial_run: {} :: {}", msg, canonical(spec, req)));
+                    if st.partial_run_panics.len() < 3 {
+                        st.partial_run_panics.push(format!("{} :: {} (inputs passed as {})", msg, canonical(spec, req), if owned { "owned values" } else { "views" }));
                     }
                 }
             }
         }
         return None;
     }
+    if !req.captures_available {
+        // Run directly there is no parent scope: the capture environment never
+        // resolves a value listed in Graph::captures(), even when the caller
+        // supplied it as an input. That is a property of the executor's capture
+        // lookup, not of the plan, so such plans are not executed here (they
+        // are when run as a subgraph).
+        let captures_a_capture = plan.iter().flatten().any(|op| spec.ops[*op].captures.iter().any(|v| spec.values[*v] == VKind::Capture));
+        if captures_a_capture {
+            st.count("not_executed_directly_subgraph_captures_a_graph_capture");
+            return None;
+        }
+    }
     let r = if req.captures_available { catch(|| exec_as_subgraph(spec, req, owned)) } else { catch(|| exec_direct(b, ins, outs, owned)) };
     match r {
         Err(msg) => {
-            if is_plan_panic(&msg) {
+            // "<panic>": the message was taken by another thread panicking at
+            // the same moment; the case is re-checked alone at the end.
+            if is_plan_panic(&msg) || msg == "<panic>" {
                 Some(Failure { kind: "invalid_plan_panic", detail: format!("executing the validated plan panicked: {}", msg) })
             } else {
                 st.count("run_other_panic");
@@ -240,7 +382,7 @@ fn check_case(spec: &GSpec, req: &Request, st: &mut Stats) -> Option<Failure> {
     let mut orc = Oracle::new(spec);
     let ins: Vec<NodeId> = req.inputs.iter().map(|i| b.node_id(i)).collect();
     let outs: Vec<NodeId> = req.outputs.iter().map(|i| b.node_id(i)).collect();
-    check_request(&b, &mut orc, spec, req, &ins, &outs, Exec::Yes, st, 0)
+    check_request(&b, &mut orc, spec, req, &ins, &outs, Exec::YesForceProbe, st, 0)
 }
 
 // ------------------------------------------------------------------ enumeration
@@ -476,9 +618,7 @@ fn check_enumerated_graph(sp: &Space, spec: &GSpec, graph_hash: u64, out_lists: 
                 if let Some(f) = check_request(&b, &mut orc, spec, &req, &ins, &outs, exec, st, h) {
                     st.failure_count += 1;
                     st.count(kind_counter(f.kind));
-                    if st.failures.len() < 4 {
-                        st.failures.push((spec.clone(), req.clone(), f));
-                    }
+                    st.keep_failure((spec.clone(), req.clone(), f));
                 }
             }
         }
@@ -491,9 +631,7 @@ fn check_enumerated_graph(sp: &Space, spec: &GSpec, graph_hash: u64, out_lists: 
         if let Some(f) = check_request(&b, &mut orc, spec, r, &ins, &outs, Exec::No, st, mix(graph_hash ^ (0xbad0 + i as u64))) {
             st.failure_count += 1;
             st.count(kind_counter(f.kind));
-            if st.failures.len() < 4 {
-                st.failures.push((spec.clone(), r.clone(), f));
-            }
+            st.keep_failure((spec.clone(), r.clone(), f));
         }
     }
 }
@@ -508,6 +646,7 @@ fn kind_counter(kind: &str) -> &'static str {
         "ok_required" => "raw_ok_required",
         "invalid_plan_panic" => "raw_invalid_plan_panic",
         "panic" => "raw_panic",
+        "hang" => "raw_hang",
         _ => "raw_other",
     }
 }
@@ -698,9 +837,7 @@ fn check_random_graph(seed: u64, gid: u64, max_ops: usize, st: &mut Stats, wd: &
         if let Some(f) = check_request(&b, &mut orc, &spec, req, &ins, &outs, Exec::Yes, st, h) {
             st.failure_count += 1;
             st.count(kind_counter(f.kind));
-            if st.failures.len() < 4 {
-                st.failures.push((spec.clone(), req.clone(), f));
-            }
+            st.keep_failure((spec.clone(), req.clone(), f));
         }
     }
 }
@@ -745,11 +882,12 @@ fn chain_in_child(n: usize, stack_bytes: usize) -> String {
 
 fn run_chains(rep: &mut Report, thorough: bool) {
     // Must run before any other thread exists (fork).
-    let lens: &[usize] = if thorough { &[1000, 5000, 20_000, 100_000] } else { &[1000, 5000] };
+    let lens: &[usize] = if thorough { &[1000, 5000, 20_000, 50_000] } else { &[1000, 5000] };
     let mut table = serde_json::Map::new();
     for &n in lens {
         for (label, stack) in [("2MiB_thread", 2usize << 20), ("8MiB_main_like", 8 << 20), ("1GiB", 1 << 30)] {
             let r = chain_in_child(n, stack);
+            rep.eval();
             rep.count("chain_runs");
             if r == "ok" {
                 rep.count("chain_plans_valid");
@@ -762,7 +900,7 @@ fn run_chains(rep: &mut Report, thorough: bool) {
         }
     }
     // Smallest chain that overflows a 2 MiB thread stack (bisection).
-    let (mut lo, mut hi) = (1000usize, 200_000usize);
+    let (mut lo, mut hi) = (1000usize, 24_000usize);
     if chain_in_child(hi, 2 << 20) != "ok" && chain_in_child(lo, 2 << 20) == "ok" {
         while hi - lo > 250 {
             let mid = (lo + hi) / 2;
@@ -867,9 +1005,14 @@ fn rerun_alone(job: &WatchJob, limit: Duration) -> Option<(GSpec, Request)> {
             }
         };
         let b = build(&spec);
+        let mut orc = Oracle::new(&spec);
         for req in reqs {
             *c2.lock().unwrap() = Some((spec.clone(), req.clone()));
             p2.fetch_add(1, SeqCst);
+            if orc.classify(&req) == Expect::Ok && orc.cycle_through_available() {
+                // This class is decided by the child-process probe, not here.
+                continue;
+            }
             let ins: Vec<NodeId> = req.inputs.iter().map(|i| b.node_id(i)).collect();
             let outs: Vec<NodeId> = req.outputs.iter().map(|i| b.node_id(i)).collect();
             let _ = catch(|| b.plan(&ins, &outs, &req).map(|p| p.len()));
@@ -900,7 +1043,7 @@ fn spawn_watchdog(wd: Arc<Watch>, args: Args) {
             for i in 0..n {
                 let s = &wd.slots[i];
                 let t = s.ticks.load(SeqCst);
-                if !s.busy.load(SeqCst) || t != seen[i].0 {
+                if !s.busy.load(SeqCst) || t != seen[i].0 || PROBING.load(SeqCst) > 0 {
                     seen[i] = (t, Instant::now());
                     continue;
                 }
@@ -912,14 +1055,14 @@ fn spawn_watchdog(wd: Arc<Watch>, args: Args) {
                 let job = s.job.lock().unwrap().clone();
                 seen[i] = (t, Instant::now());
                 let Some(job) = job else { continue };
-                if let Some((spec, req)) = rerun_alone(&job, Duration::from_secs(10)) {
+                if let Some((spec, req)) = rerun_alone(&job, Duration::from_secs(5)) {
                     let mut rep = Report::new("C03", "plancheck c03", &args, RULE);
                     rep.eval();
                     rep.note("aborted", json!("a planning call did not return; the run was stopped after confirming it alone"));
                     let sig = format!("C03|hang|{}", canonical(&spec, &req));
                     rep.violation(
                         sig,
-                        format!("execution_plan did not return within 10 s when re-run alone: {}", canonical(&spec, &req)),
+                        format!("execution_plan did not return within 5 s when re-run alone: {}", canonical(&spec, &req)),
                         json!({"spec": spec.to_json(), "request": req.to_json(), "kind": "hang"}),
                     );
                     rep.finish();
@@ -1118,7 +1261,14 @@ fn permutations(a: &mut Vec<usize>, k: usize, out: &mut Vec<Vec<usize>>) {
 }
 
 fn report_failure(rep: &mut Report, spec: &GSpec, req: &Request, fail: &Failure) {
-    let (s, r, f) = shrink(spec, req, fail);
+    let (mut s, mut r, mut f) = shrink(spec, req, fail);
+    if f.kind == "hang" {
+        // Shrinking used short time limits; confirm the result with the long ones.
+        let long = plan_in_child(&s, &r, Duration::from_millis(1000)) == Ok(false) && plan_in_child(&s, &r, Duration::from_millis(4000)) == Ok(false);
+        if !long {
+            (s, r, f) = (spec.clone(), req.clone(), fail.clone());
+        }
+    }
     let text = canonical(&s, &r);
     rep.violation(
         format!("C03|{}|{}", f.kind, text),
@@ -1181,28 +1331,6 @@ fn replay(args: &Args, rep: &mut Report, path: &str) {
     rep.eval();
     rep.nontrivial(&0u8);
     rep.nontrivial(&1u8);
-    if w["kind"] == "hang" {
-        let job_done = {
-            let (s2, r2) = (spec.clone(), req.clone());
-            let (tx, rx) = std::sync::mpsc::channel();
-            std::thread::spawn(move || {
-                let b = build(&s2);
-                let ins: Vec<NodeId> = r2.inputs.iter().map(|i| b.node_id(i)).collect();
-                let outs: Vec<NodeId> = r2.outputs.iter().map(|i| b.node_id(i)).collect();
-                let _ = catch(|| b.plan(&ins, &outs, &r2).map(|p| p.len()));
-                let _ = tx.send(());
-            });
-            rx.recv_timeout(Duration::from_secs(10)).is_ok()
-        };
-        if !job_done {
-            rep.violation(
-                format!("C03|hang|{}", canonical(&spec, &req)),
-                format!("execution_plan did not return within 10 s: {}", canonical(&spec, &req)),
-                json!({"spec": spec.to_json(), "request": req.to_json(), "kind": "hang"}),
-            );
-        }
-        return;
-    }
     let mut st = Stats::default();
     match catch(|| check_case(&spec, &req, &mut st)) {
         Ok(Some(f)) => report_failure(rep, &spec, &req, &f),
@@ -1286,6 +1414,9 @@ fn c03(args: &Args) {
     rep.exhaustive = only.is_none() && args.shards == 1;
     if !total.other_panics.is_empty() {
         rep.note("unexpected_runs", json!(total.other_panics));
+    }
+    if !total.partial_run_panics.is_empty() {
+        rep.note("partial_run_panics_not_part_of_C03", json!(total.partial_run_panics));
     }
     if total.counters.get("run_other_panic").copied().unwrap_or(0) > 0 {
         rep.inconclusive = Some(format!("executor panicked in an unexpected way: {}", total.other_panics.first().cloned().unwrap_or_default()));
